@@ -40,6 +40,15 @@ C = {
  "C18": dict(cat="model_checking", tech="TLC: round trip, RFC 3986 validity (matcher), prefix form and documented sizes for all names to a bound in the documented domain; TLC trace validation of the four conversions with exact-size guard-page buffers",
    text="The four conversions are specified as functions and model-checked on all short names of the documented domain; recorded real conversions (every code point per position class, random names, both directions and widths, exact documented buffer sizes at a guard page, produced URI through the real parser) are validated by TLC.",
    note="Trusted: TLC, spec/UriFile.tla. The documented Windows domain excludes names with '/', a non-letter 'drive' and UNC with an empty server (stated in DESIGN).", ref="4 C18"),
+ "C13": dict(cat="model_checking", tech="TLC: allocation-ledger automaton characterised over all short histories; TLC trace validation of per-phase allocator logs for every manager-taking function under a recording manager (libc interposed via --wrap), the default manager and a completed manager; all 31 incomplete managers",
+   text="The ledger automaton is model-checked (balanced iff every handed-out block is released exactly once); every manager-taking function is run on a URI corpus with three manager kinds, the allocator log of each phase (set-up, call, matching release, repeated release) is folded by TLC through the automaton, libc allocation inside a call that was given a manager is itself a logged event, and every incomplete manager must be rejected with an empty log.",
+   note="Trusted: TLC, spec/UriLedger.tla, the recording manager and the -Wl,--wrap interposition of the harness. Failure paths are C14's sweep.", ref="4 C13"),
+ "C14": dict(cat="fault_enumeration", tech="exhaustive allocation-failure sweep (every request position k, fail-once and fail-from-k) over a fixed list of operation/input shapes; each run's allocator log validated by TLC against the ledger automaton and the out-of-memory return rule",
+   text="For every listed (operation, input) shape the k-th request through the supplied manager is failed for every k up to the fault-free count plus one, in both modes; TLC requires URI_ERROR_MALLOC exactly when a request failed, an empty ledger after the caller's ordinary cleanup, no double/unknown release and unchanged read-only inputs; released blocks are really freed under ASan so touching one is a crash.",
+   note="Exhaustive over failure positions of the listed shapes, not over all inputs. Trusted: TLC, spec/UriLedger.tla, recording manager, ASan.", ref="4 C14"),
+ "C15": dict(cat="model_checking", tech="TLC: design model of the completed manager (size header, realloc by copy, overflow-checked products) on a scaled word with backend failure at any call; stateful TLC trace validation of random call sequences on the real completed manager over an instrumented backend",
+   text="The wrapper's design is model-checked against the C allocator contract on a scaled SIZE_MAX (so near-overflow sizes are reachable) with nondeterministic backend failure; recorded call sequences on the real manager (sizes up to SIZE_MAX, overflowing factor pairs, failure plans, pattern-filled blocks, canaries) are validated by a stateful trace specification that carries live user and backend blocks through each episode.",
+   note="Trusted: TLC, spec/UriMemory.tla + Trace_Memory.tla; content observations by the harness and ASan. Random sequences, seeded.", ref="4 C15"),
 }
 def gen():
     checks = []
